@@ -9,7 +9,9 @@
 (*             report's true position (independent encoder), kind, parity;   *)
 (*   none / some; some => the ruler's distance to the truth <= 25 m;         *)
 (*   iso = inter (bit-identical: no interference between aircraft);          *)
-(*   batch = inter; the fixed reference is left unchanged; no panic.         *)
+(*   batch = inter; the fixed reference is left unchanged; no panic;         *)
+(*   "epoch": the same deliveries stamped 1.7e9 s + t (interleaved run):     *)
+(*   none / some within 25 m as well (time origin is not part of a history). *)
 (* SELFCHECK (generator guard, a tool error, never a verdict): the premise   *)
 (*   measured by the ruler -- implied ground speed <= 700 kt, surface        *)
 (*   reports within 40 NM of the receiver reference.                         *)
@@ -49,6 +51,8 @@ WhyRep(ev) ==
   ELSE IF WhyOut(ev.inter, Tight(ev)) # "" THEN WhyOut(ev.inter, Tight(ev))
   ELSE IF ev.iso # ev.inter THEN "interference"
   ELSE IF ev.batch # ev.inter THEN "batch_differs"
+  \* the same deliveries on a UNIX-epoch time base (1.7e9 s + t): judged by the property alone
+  ELSE IF Has(ev, "epoch") /\ WhyOut(ev.epoch, Tight(ev)) # "" THEN WhyOut(ev.epoch, Tight(ev)) \o "_epoch_time_base"
   ELSE ""
 
 WhyScen(ev) ==
